@@ -123,6 +123,10 @@ def expprior_instance(rng):
         d = 2
     Ms = [[[(rng.randint(-2, 2) if b > a else 0) for b in range(d)] for a in range(d)] for _ in range(n)]
     lam = [rng.choice(LAMS) for _ in range(d)]
+    # a NONLINEAR autonomous right-hand side: component a gets quad[a] * u_{a+1}^2 (still strictly "upper triangular", so
+    # the drift = Jacobian at the initial Taylor coefficients stays nilpotent); the drift must be taken at tc0, not at 0
+    quad = [(rng.randint(-1, 1) if (a + 1 < d and rng.random() < 0.6) else 0) for a in range(d)]
+    tc0 = [[rng.randint(-2, 2) for _ in range(d)] for _ in range(n)]
     N = n * d
     A = [[0] * N for _ in range(N)]
     for i in range(n - 1):
@@ -132,9 +136,11 @@ def expprior_instance(rng):
         for a in range(d):
             for b in range(d):
                 A[(n - 1) * d + a][k * d + b] = Ms[k][a][b]
+    for a in range(d - 1):
+        A[(n - 1) * d + a][a + 1] += 2 * quad[a] * tc0[0][a + 1]
     B = [[(lam[a] if (i == (n - 1) * d + a) else 0) for a in range(d)] for i in range(N)]
     hs = [F(1, 4), F(1), F(4)] if N <= 3 else ([F(1), F(1, 4)] if N == 4 else [F(1)])
-    return dict(type="prior", n=n, d=d, Ms=Ms, lam=lam, A=A, B=B, h1=rng.choice(hs), h2=rng.choice(hs), sigma=rng.choice([F(1), F(2), F(1, 2)]), ou=(rng.random() < 0.4))
+    return dict(type="prior", n=n, d=d, Ms=Ms, quad=quad, tc0=tc0, lam=lam, A=A, B=B, h1=rng.choice(hs), h2=rng.choice(hs), sigma=rng.choice([F(1), F(2), F(1, 2)]), ou=(rng.random() < 0.4))
 
 
 def expgram_tla(inst):
@@ -178,15 +184,20 @@ def check_expprior(inst, exp, tol=1e-10):
     n, d = inst["n"], inst["d"]
     Ms = [np.array(M, dtype=np.float64) for M in inst["Ms"]]
     ssm = _ssm("dense")
-    tcoeffs = [jnp.zeros((d,))] * n
+    quad = np.array(inst.get("quad", [0] * d), dtype=np.float64)
+    tcoeffs = [jnp.asarray([float(x) for x in row]) for row in inst.get("tc0", [[0] * d] * n)]
     lam = jnp.asarray([float(x) for x in inst["lam"]])
     bad = []
-    use_ou = inst["ou"] and all(not np.any(M) for M in Ms[:-1])
+    use_ou = inst["ou"] and all(not np.any(M) for M in Ms[:-1]) and not np.any(quad)
     if use_ou:
         prior = ssm.prior_ornstein_uhlenbeck_integrated(lambda x: jnp.asarray(Ms[-1]) @ x, tcoeffs, output_scale=lam)
         name = "prior_ornstein_uhlenbeck_integrated"
     else:
-        ode = pdq.ode_autonomous_order_arbitrary(lambda *us: sum(jnp.asarray(M) @ u for M, u in zip(Ms, us)), num_tcoeffs_in_args=n)
+        def rhs(*us):
+            shifted = jnp.concatenate([us[0][1:], jnp.zeros((1,))])  # u_{a+1}
+            return sum(jnp.asarray(M) @ u for M, u in zip(Ms, us)) + jnp.asarray(quad) * shifted**2
+
+        ode = pdq.ode_autonomous_order_arbitrary(rhs, num_tcoeffs_in_args=n)
         prior = ssm.prior_exponential(ode, tcoeffs, output_scale=lam)
         name = "prior_exponential"
     s = float(inst["sigma"])
